@@ -51,6 +51,10 @@ type c19Req struct {
 	Svc  int    `json:"svc"`
 	Kind string `json:"kind"`           // proxy | object | hook
 	Gone bool   `json:"gone,omitempty"` // the service is unregistered at that moment: the request must only return
+	// the request names an object (77) that the service does not have: it goes through the session
+	// like any other, the server answers the metaObject call / the call with an error, and the request
+	// only has to return — the shared connection is as good as before
+	NoObj bool `json:"noobj,omitempty"`
 }
 
 // one change of the directory inside a burst of changes (phase "regs")
@@ -499,6 +503,10 @@ func runC19LifeChild(res *hx.Result, rng *hx.Rng, tier string, outdir string) {
 	// one request: "" and true when it returned a proxy / client through which a call succeeds
 	try := func(rq c19Req) (string, bool, bus.Client) {
 		name := c19LifeSvc(rq.Svc)
+		objectID := uint32(1)
+		if rq.NoObj {
+			objectID = 77
+		}
 		switch rq.Kind {
 		case "hook":
 			info, ok := find(name)
@@ -509,7 +517,7 @@ func runC19LifeChild(res *hx.Result, rng *hx.Rng, tier string, outdir string) {
 			if err != nil {
 				return err.Error(), false, nil
 			}
-			if _, err := bus.GetMetaObject(c, info.ServiceId, 1); err != nil {
+			if _, err := bus.GetMetaObject(c, info.ServiceId, objectID); err != nil {
 				return "call through the client: " + err.Error(), false, c
 			}
 			return "", true, c
@@ -518,7 +526,7 @@ func runC19LifeChild(res *hx.Result, rng *hx.Rng, tier string, outdir string) {
 			idmu.Lock()
 			id := lastID[rq.Svc]
 			idmu.Unlock()
-			p, err := sess.Object(object.ObjectReference{MetaObject: fullMeta, ServiceID: id, ObjectID: 1})
+			p, err := sess.Object(object.ObjectReference{MetaObject: fullMeta, ServiceID: id, ObjectID: objectID})
 			if err != nil {
 				return err.Error(), false, nil
 			}
@@ -527,7 +535,7 @@ func runC19LifeChild(res *hx.Result, rng *hx.Rng, tier string, outdir string) {
 			}
 			return "", true, nil
 		default:
-			p, err := sess.Proxy(name, 1)
+			p, err := sess.Proxy(name, objectID)
 			if err != nil {
 				return err.Error(), false, nil
 			}
@@ -956,6 +964,9 @@ func (lf c19Life) String() string {
 				if rq.Gone {
 					t += "!unregistered"
 				}
+				if rq.NoObj {
+					t += "!no-such-object"
+				}
 				rs = append(rs, t)
 			}
 			k := "together"
@@ -1060,7 +1071,7 @@ func (lf c19Life) sim() c19LifeSim {
 			miss := map[int]int{}
 			for _, rq := range ph.Reqs {
 				s.reqPhase = append(s.reqPhase, pi)
-				s.mustWork = append(s.mustWork, !rq.Gone)
+				s.mustWork = append(s.mustWork, !rq.Gone && !rq.NoObj)
 				e := home[rq.Svc]
 				s.modelled = append(s.modelled, !rq.Gone && e >= 0)
 				if rq.Gone || e < 0 {
@@ -1309,6 +1320,10 @@ func c19GenViewLife(rng *hx.Rng, trials int) c19Life {
 		for j, n := 0, rng.Intn(3); j < n && len(cand) > 0; j++ {
 			asked = append(asked, c19Req{Svc: cand[rng.Intn(len(cand))], Kind: kinds[rng.Intn(3)]})
 		}
+		// a request that the server refuses (no such object) among them: the others share its connection
+		if all := live(nil); rng.Chance(0.3) {
+			asked = append(asked, c19Req{Svc: all[rng.Intn(len(all))], Kind: kinds[rng.Intn(3)], NoObj: true})
+		}
 		for i := len(asked) - 1; i > 0; i-- {
 			j := rng.Intn(i + 1)
 			asked[i], asked[j] = asked[j], asked[i]
@@ -1363,7 +1378,7 @@ func c19DirectedViewLives() []c19Life {
 			livef = append(livef, x, y)
 			lf.Phases = append(lf.Phases,
 				c19Phase{Kind: "regs", Forced: true, Ops: []c19RegOp{{Op: "add", Svc: x, To: t % 2}, {Op: "add", Svc: y, To: (t + t%5) % 2, Gap: 20 * t}}},
-				c19Phase{Kind: "burst", Seq: t%2 == 0, Reqs: []c19Req{rq("proxy", y), rq("proxy", x), rq("object", y), rq("hook", x)}})
+				c19Phase{Kind: "burst", Seq: t%2 == 0, Reqs: []c19Req{rq("proxy", y), {Svc: x, Kind: "proxy", NoObj: true}, rq("proxy", x), rq("object", y), rq("hook", x)}})
 		case 2: // a removal, then a registration behind it
 			n++
 			gone := livef[len(livef)-1]
@@ -1376,7 +1391,7 @@ func c19DirectedViewLives() []c19Life {
 			livef = append(livef, x)
 			lf.Phases = append(lf.Phases,
 				c19Phase{Kind: "regs", Forced: true, Ops: []c19RegOp{{Op: "add", Svc: x, To: 0}, {Op: "move", Svc: 1, To: (t / 5) % 2}}},
-				c19Phase{Kind: "burst", Seq: true, Reqs: []c19Req{rq("proxy", 1), rq("object", 1), rq("proxy", x), rq("hook", 1)}})
+				c19Phase{Kind: "burst", Seq: true, Reqs: []c19Req{rq("proxy", 1), {Svc: 1, Kind: "hook", NoObj: true}, rq("object", 1), rq("proxy", x), {Svc: x, Kind: "object", NoObj: true}, rq("hook", 1)}})
 		case 4: // a move, then a registration
 			n++
 			livef = append(livef, x)
@@ -1638,6 +1653,11 @@ func runC19Lives(res *hx.Result, rng *hx.Rng, tier string, outdir string, defect
 					}
 				}
 			case "burst":
+				for _, rq := range ph.Reqs {
+					if rq.NoObj {
+						res.Dist("life:request-for-a-missing-object")
+					}
+				}
 				if ph.Seq {
 					res.Dist("life:burst:in-turn")
 				} else {
